@@ -25,6 +25,8 @@
 #[macro_use]
 extern crate log;
 
+#[cfg(may_verif)]
+pub mod verif;
 mod cancel;
 mod config;
 mod join;
